@@ -41,7 +41,8 @@ var c11RespList = []string{"ok", "absent", "trunc", "undec"}
 var c11CbMutList = []string{"none", "trunc:1", "trunc:27", "trunc:28", "extra:1", "extra:30",
 	"lie:0:kv:inc", "lie:0:kv:dec", "lie:0:kv:zero", "lie:0:kv:max", "lie:9:kv:big", "lie:9:kv:dec",
 	"lie:0:key:inc", "lie:0:key:dec", "lie:0:key:max", "lie:0:key:zero", "lie:0:val:inc", "lie:0:val:dec", "lie:0:val:max",
-	"lie:0:row:inc", "lie:0:row:max", "lie:0:row:zero", "lie:0:fam:inc", "lie:0:fam:max", "lie:9:fam:max"}
+	"lie:0:row:inc", "lie:0:row:max", "lie:0:row:zero", "lie:0:fam:inc", "lie:0:fam:max", "lie:9:fam:max",
+	"wrap:0:0", "wrap:0:3", "wrap:9:3", "wrap:9:4"}
 
 func dimID() c11Dim {
 	return c11Dim{3, func(f *c11Frame, k int) { f.id = []string{"own", "none", "unk"}[k] }}
@@ -173,7 +174,7 @@ func scanDims() []c11Dim {
 			}
 		}},
 		dimCbMut([]string{"none", "trunc:1", "trunc:28", "extra:1", "lie:0:kv:inc", "lie:0:kv:dec", "lie:9:kv:big",
-			"lie:0:key:dec", "lie:0:val:inc", "lie:0:row:max", "lie:9:fam:max"}),
+			"lie:0:key:dec", "lie:0:val:inc", "lie:0:row:max", "lie:9:fam:max", "wrap:9:3"}),
 	}
 }
 
@@ -470,7 +471,7 @@ func multiMuts(mcs []c11MC) []c11Mut {
 		add("resp-"+r, func(f *c11Frame) { f.resp = r })
 	}
 	for _, m := range []string{"trunc:1", "trunc:28", "extra:1", "lie:0:kv:inc", "lie:0:kv:dec", "lie:9:kv:big", "lie:0:key:dec",
-		"lie:9:val:inc", "lie:0:row:max", "lie:9:fam:max"} {
+		"lie:9:val:inc", "lie:0:row:max", "lie:9:fam:max", "wrap:9:3"} {
 		m := m
 		add("cb-"+m, func(f *c11Frame) { f.cbMut = m })
 	}
